@@ -44,6 +44,23 @@ def _valid(framing, side, i):
     return adu.build(framing, UNIT, pdu.encode(m))
 
 
+def varlen(framing, side):
+    """a valid frame whose length is announced by a byte well inside the frame (read/write multiple registers: byte 10)"""
+    k = (framing, side, 'varlen')
+    if k not in _VC:
+        for salt in range(64):          # contents chosen so that no delimiter byte of the binary framing occurs in the frame (C10's finding)
+            if side == 'req':
+                m = dict(kind='req', fc=0x17, read_address=0x0101, read_count=2, write_address=0x0202, write_count=2, write_byte_count=4,
+                         write_registers=[0x1111 + salt, 0x2222])
+            else:
+                m = dict(kind='rsp', fc=0x17, registers=[0x0A0A + salt, 0x0B0B, 0x0C0C])
+            f = adu.build(framing, UNIT, pdu.encode(m))
+            if framing != 'binary' or (b'{' not in f[1:-1] and b'}' not in f[1:-1]):
+                break
+        _VC[k] = f
+    return _VC[k]
+
+
 def shortest(framing, side):
     k = (framing, side, 'shortest')
     if k not in _VC:
@@ -89,6 +106,11 @@ def garbage(framing, side):
         ev.append(('bare-colon-crlf', b':\r\n'))
     if framing == 'binary':
         ev.append(('empty-braces', b'{}'))
+    # the variable-length frame of the traffic with its length byte damaged (checksum then wrong)
+    vl = bytearray(varlen(framing, side))
+    pos = {'rtu': 10, 'binary': 11, 'ascii': 21}[framing] if side == 'req' else {'rtu': 2, 'binary': 3, 'ascii': 5}[framing]
+    vl[pos] ^= (0x04 if framing != 'ascii' else 0x01)
+    ev.append(('length-byte-damaged', bytes(vl)))
     # a frame whose checksum is right but whose PDU the decoder cannot take (byte count disagreeing with the contents)
     badpdu = bytes([0x10, 0x00, 0x01, 0x00, 0x02, 0x02, 0x00, 0x0A]) if side == 'req' else bytes([0x03, 0x03, 0x00, 0x07, 0x00])
     ev.append(('good-checksum-bad-pdu', adu.build(framing, UNIT, badpdu)))
@@ -159,6 +181,8 @@ def _liveness(framing, side, snap, per_read, traffic, policy, WARM, backlog_boun
         fs = [same(framing, side) if traffic == 'same' else valid(framing, side, i + k) for k in range(per_read)]
         if traffic == 'short':          # the shortest valid frames of the protocol among the traffic
             fs[0] = shortest(framing, side)
+        if traffic == 'varlen':
+            fs[0] = varlen(framing, side)
         i += per_read
         read(fs)
         fed += sum(len(f) for f in fs)
@@ -169,11 +193,13 @@ def _liveness(framing, side, snap, per_read, traffic, policy, WARM, backlog_boun
         keys = [1000 + r * per_read + j for j in range(per_read)]
         if traffic == 'short' and per_read > 1:
             fs[0], keys[0] = shortest(framing, side), 'shortest'       # ... which must be delivered like any other
+        if traffic == 'varlen' and per_read > 1:
+            fs[0], keys[0] = varlen(framing, side), 'varlen'
         for key, f in zip(keys, fs):
             ek = (framing, side, 'exp', key)
             if ek not in _VC:
                 _VC[ek] = framers.feed(framers.make(framing, side), f, [UNIT], False)[0]
-            if key == 'shortest':
+            if key in ('shortest', 'varlen'):
                 continue            # delivered identically every time: counted below, not by identity
             expect.extend(_VC[ek])
         read(fs)
@@ -182,8 +208,8 @@ def _liveness(framing, side, snap, per_read, traffic, policy, WARM, backlog_boun
         return 'reset-raises', 'resetFrame() itself raised %r with %d bytes buffered' % (reset_failed[0], framers.buffered(fr))
     if backlog_bound and maxbuf >= WARM + one + 16:
         return 'backlog-unbounded', 'backlog reached %d bytes' % maxbuf
-    if traffic == 'short' and per_read > 1:
-        sk = (framing, side, 'exp', 'shortest')
+    if traffic in ('short', 'varlen') and per_read > 1:
+        sk = (framing, side, 'exp', 'shortest' if traffic == 'short' else 'varlen')
         n_short = sum(1 for x in tail if x in _VC[sk])
         if n_short != 4 * len(_VC[sk]):
             return 'late-or-lost', 'only %d of the 4 shortest valid frames fed after %d bytes of valid traffic were delivered' % (n_short, fed)
@@ -237,7 +263,7 @@ def explore(acc, framing, side, depth, reduced_from=2, part=0, parts=1):
                 fr = framers.restore(framing, side, cur)
                 framers.feed(fr, lst[idx][1], [UNIT], False)
                 cur = framers.snapshot(fr)
-        for per_read, traffic, policy in [(p, t, y) for p in (1, 2) for t in ('same', 'alternating') for y in ('raw', 'reset')] + [(2, 'short', 'raw'), (1, 'short', 'reset')]:
+        for per_read, traffic, policy in [(p, t, y) for p in (1, 2) for t in ('same', 'alternating') for y in ('raw', 'reset')] + [(2, 'short', 'raw'), (1, 'short', 'reset'), (2, 'varlen', 'raw'), (2, 'varlen', 'reset')]:
             if True:
                 if True:
                     acc.inc('obligations')
